@@ -22,10 +22,12 @@ RULE = (
 ASSUMPTIONS = [
     "distance to the ellipse = true Euclidean distance (sampled start + Newton on the ellipse parameter), divided by the larger radius",
     "bounds at the default subdivision (slices of at most 30 degrees): 1e-3 for cubics, 1e-2 for quadratics",
+    "zero extent = coincident end points; zero-radius arcs between different points (straight lines with sweep 0, which the "
+    "converter drops) are not generated inside paths",
     "finer subdivision: the measured error for 2n slices may exceed the error for n slices only by rounding (1e-9 relative to the radius)",
 ]
 TOLERANCES = {"cubic": 1e-3, "quadratic": 1e-2, "exact ends/joins": 0.0}
-MANDATORY_LABELS = {"quick": ["mode:cubic", "mode:quad", "n:default", "n:explicit", "embedded", "sweep:negative", "sweep:beyond-full-turn", "sweep:zero", "sweep:tiny"]}
+MANDATORY_LABELS = {"quick": ["mode:cubic", "mode:quad", "n:default", "n:explicit", "embedded", "embedded:several-arcs", "embedded:zero-extent-arc", "sweep:negative", "sweep:beyond-full-turn", "sweep:zero", "sweep:tiny"]}
 MANDATORY_LABELS["thorough"] = MANDATORY_LABELS["quick"]
 
 
@@ -44,11 +46,24 @@ def decode(d):
             sweep = -sweep
         arc = ["E", gen.point(d), gen.r6(rx), gen.r6(ry), gen.angle_deg(d), gen.r6(d.uniform(-3.2, 3.2)), sweep]
     case = {"arc": arc, "mode": d.choice(["cubic", "quad"]), "n": None if d.bool() else d.choice([1, 2, 3, 4, 6, 8, 12, 16, 24, 40]), "path": None}
-    if d.chance(2, 8):
-        before = gen.path_segments(d, max_subpaths=1, max_segs=2, kinds="LQC", c=gen.small_coord)
-        before = [s for s in before if s[0] != "Z"]
-        after = [gen.segment(d, "LQC", c=gen.small_coord)[1] for _ in range(d.below(3))]
-        case["path"] = {"before": before, "after": after, "error": d.choice([0.1, 0.05, 0.25, 0.02, 1.0 / 12.0])}
+    if d.chance(3, 8):
+        # the arc embedded in a path among other segments - further arcs and zero-extent arcs included
+        def extra(n):
+            out = []
+            for _ in range(n):
+                if d.chance(3, 8):
+                    kind, a = gen.arc_endpoint(d, c=gen.small_coord, allow_degenerate=True)
+                    if d.chance(1, 3) or a[2] == 0 or a[3] == 0:
+                        # coincident end points: zero extent.  (A zero-radius arc between different points is a straight
+                        # line with sweep 0; whether "zero extent" covers it is not settled by the statement - not generated)
+                        a[7] = list(a[1])
+                    out.append(a)
+                else:
+                    out.append(gen.segment(d, "LQC", c=gen.small_coord)[1])
+            return out
+
+        before = [["M", gen.point(d, gen.small_coord)]] + extra(d.below(3))
+        case["path"] = {"before": before, "after": extra(d.below(4)), "error": d.choice([0.1, 0.05, 0.25, 0.02, 1.0 / 12.0])}
     return case
 
 
@@ -173,40 +188,61 @@ def check(case):
     if case["path"] is not None:
         o.label("embedded")
         spec = case["path"]
-        segs = list(spec["before"])
-        cur = segs[-1][-1]
-        anchored = arc * se.Matrix.translate(cur[0] - arc.start.x, cur[1] - arc.start.y)
-        p = lib.mk_path(segs)
+        p = se.Path()
+        at = None
+        for sgm in spec["before"]:
+            if sgm[0] == "M":
+                p.append(se.Move(None, se.Point(*sgm[1])))
+                at = list(sgm[1])
+            else:
+                s2 = gen.reanchor(sgm, at)
+                p.append(lib.mk_segment(s2))
+                at = list(s2[-1])
+        anchored = arc * se.Matrix.translate(at[0] - arc.start.x, at[1] - arc.start.y)
         p.append(anchored)
-        at = list(anchored.end)
-        for s in spec["after"]:
-            s2 = gen.reanchor(s, at)
+        at = [anchored.end.x, anchored.end.y]
+        for sgm in spec["after"]:
+            s2 = gen.reanchor(sgm, at)
             p.append(lib.mk_segment(s2))
             at = list(s2[-1])
-        before = [(_copy.copy(s), lib.kind_of(s)) for s in p]
-        arc_index = len(segs)
+        before = [(_copy.copy(sg), lib.kind_of(sg)) for sg in p]
+        narcs = sum(1 for _, k in before if k == "A")
+        if narcs >= 2:
+            o.label("embedded:several-arcs")
+        if any(k == "A" and sg.sweep == 0 for sg, k in before):
+            o.label("embedded:zero-extent-arc")
         if mode == "cubic":
             p.approximate_arcs_with_cubics(error=spec["error"])
         else:
             p.approximate_arcs_with_quads(error=spec["error"])
-        expect_n = int(math.ceil(abs(anchored.sweep) / (2 * math.pi * spec["error"])))
         got = list(p)
-        if len(got) != len(before) - 1 + expect_n:
-            return o.violation("path:segment-count", "%d segments before, %d after, expected %d + %d" % (len(before), len(got), len(before) - 1, expect_n))
+        j = 0
         for i, (s0, k0) in enumerate(before):
-            if i == arc_index:
-                continue
-            j = i if i < arc_index else i + expect_n - 1
-            s1 = got[j]
-            if lib.kind_of(s1) != k0 or [lib.xy(x) for _, x in c02.stored_points(s1) if x is not None] != [lib.xy(x) for _, x in c02.stored_points(s0) if x is not None]:
-                return o.violation("path:other-segment-changed", "segment %d (%s) changed by the arc conversion" % (i, k0))
-        sub = got[arc_index: arc_index + expect_n]
-        bad = check_chain(o, anchored, sub, mode, "path-chain")
-        if bad is not None:
-            return bad
+            if k0 == "A":
+                n_exp = int(math.ceil(abs(s0.sweep) / (2 * math.pi * spec["error"])))
+                sub = got[j: j + n_exp]
+                if len(sub) != n_exp or any(lib.kind_of(x) != ("C" if mode == "cubic" else "Q") for x in sub):
+                    return o.violation("path:arc-not-converted", "arc %d of the path (sweep %r) should become %d %s curves; the path now reads %s (was %s)" % (
+                        i, s0.sweep, n_exp, mode, "".join(lib.kind_of(x) for x in got), "".join(k for _, k in before)))
+                if n_exp:
+                    bad = check_chain(o, s0, sub, mode, "path-chain")
+                    if bad is not None:
+                        return bad
+                j += n_exp
+            else:
+                if j >= len(got):
+                    return o.violation("path:segment-lost", "segment %d (%s) is gone; the path now reads %s" % (i, k0, "".join(lib.kind_of(x) for x in got)))
+                s1 = got[j]
+                if lib.kind_of(s1) != k0 or [lib.xy(x) for _, x in c02.stored_points(s1) if x is not None] != [lib.xy(x) for _, x in c02.stored_points(s0) if x is not None]:
+                    return o.violation("path:other-segment-changed", "segment %d (%s) changed by the arc conversion" % (i, k0))
+                j += 1
+        if j != len(got):
+            return o.violation("path:segment-count", "%d segments expected after the conversion, %d found (%s)" % (j, len(got), "".join(lib.kind_of(x) for x in got)))
+        if any(lib.kind_of(x) == "A" for x in got):
+            return o.violation("path:arc-left", "an Arc is still in the path after the conversion: %s" % "".join(lib.kind_of(x) for x in got))
         Sp = lib.scale_of([lib.xy(x.end) for x in got])
         for a, b in zip(got, got[1:]):
-            # (exact equality at the chain's own ends is checked above; elsewhere the path is as connected as it was)
+            # (exact equality at every chain's own ends is checked above; elsewhere the path is as connected as it was)
             if lib.kind_of(b) != "M" and not core.pclose(lib.xy(a.end), lib.xy(b.start), 1e-12 * Sp):
                 return o.violation("path:disconnected", "%s ends at %r, next %s starts at %r" % (lib.kind_of(a), lib.xy(a.end), lib.kind_of(b), lib.xy(b.start)))
     o.nontrivial = ratio > 1.5 and (sweep < 0 or len(chain) > 1)
